@@ -81,9 +81,10 @@ func recsEqual(a, b []c19Rec) (bool, string) {
 }
 
 type c19Worker struct {
-	root *World
-	lib  *OpLib
-	gmax int
+	root  *World
+	lib   *OpLib
+	gmax  int
+	serve bool // the next run simulates and CheckTx'es every transaction before its block
 }
 
 // run executes trace linearly on a fresh app over a copy of the root DB.
@@ -97,6 +98,7 @@ func (cw *c19Worker) run(trace []string, restartAfter, crashAt int, seam ...func
 	for _, fn := range seam {
 		fn()
 	}
+	f.ServeFirst = cw.serve
 	defer MapSeamSet(0, 0, 0)
 	var recs []c19Rec
 	if restartAfter == 0 {
@@ -169,6 +171,17 @@ func c19MakeWorker(tier string) KUnitFunc {
 				st.Clauses["crash_before_commit"]++
 				if ok, why := recsEqual(ref, got); err != nil || !ok {
 					bad("crash_before_commit_diverges", "", fmt.Sprintf("crash after FinalizeBlock of block %d (before Commit), restart, redo: %s %v", h+1, why, err), fmt.Sprintf("crash_before_commit:%d", h))
+				}
+			}
+			// a node that SERVES clients (simulates and mempool-checks every transaction before it is in a block)
+			// must stay in consensus with one that does not
+			{
+				got, err := cw.run(u.Trace, -1, -1, func() { cw.serve = true })
+				cw.serve = false
+				st.Evaluations++
+				st.Clauses["serving_node"]++
+				if ok, why := recsEqual(ref, got); err != nil || !ok {
+					bad("simulation_or_checktx_changes_result", "", fmt.Sprintf("every transaction simulated and CheckTx'ed before its block: %s %v", why, err), "serving_node")
 				}
 			}
 			st.Sequences++
